@@ -58,14 +58,22 @@ def check_stack(ctx, cx, stack, tag, corr=True):
             ctx.count('kind:' + k)
     ctx.count('depth:%s' % ('0' if not stack else '1-5' if len(stack) <= 5 else '6-50' if len(stack) <= 50 else '51+'))
     want = V.spec_stack_cell(cx, stack)
-    want_canon = V.canon_desc_stack(cx, stack)
+    try:
+        want_canon, toks = V.canon_desc_stack(cx, stack), V.stack_tokens(cx, stack)
+    except V.Unencodable:                  # a save-list value has no encoding: no dictionary cell to show the model
+        want_canon = toks = None
     vs = [V.mk_lib(cx, d) for d in stack]
-    snap0 = V.canon_stack(vs)
-    if snap0 != want_canon:
+    try:
+        snap0 = V.canon_stack(vs)
+    except V.NotCanonical as e:
+        if want is not None:
+            ctx.fail('refused:savedict', f'a save list of encodable values does not serialise: {e}', inp, str(e), 'dictionary cell')
+        return
+    if want_canon is not None and snap0 != want_canon:
         raise AssertionError(f'harness: canon of built values differs from canon of description: {snap0} / {want_canon}')
+    corr = corr and toks is not None
     c1, e1 = _try(lambda: lib.VmStack.serialize(vs))
-    snap1 = V.canon_stack(vs)
-    toks = V.stack_tokens(cx, stack)
+    snap1, _ = _try(lambda: V.canon_stack(vs))
     ser_line = f'vmser {cx.dag_arg()} {toks}'
     if snap1 != snap0:
         k = next((i for i, (a, b) in enumerate(zip(snap0.split(','), snap1.split(','))) if a != b), 0)
